@@ -1743,6 +1743,7 @@ class Authenticated(BaseClientHandler):
         #
         expunge_cmd = IMAPClientCommand("A001 EXPUNGE")
         expunge_cmd.command = IMAPCommand.EXPUNGE
+        expunge_cmd.forced_expunge = True
         try:
             idling = self.idling
             self.idling = True
